@@ -80,6 +80,7 @@ class World:
         self.shared_lookups = False  # True: all evaluations of one requirement key await ONE shared future (a cached backend look-up)
         self.shared: Dict[str, Any] = {}
         self.log: List[tuple] = []
+        self.anomalies: List[str] = []  # things the user-side code observed that cannot happen if evaluations are kept apart
 
     def data(self) -> EvaluatableData:
         return EvaluatableData(body=self, edifact_format=FORMAT, edifact_format_version=VERSION)
@@ -141,7 +142,13 @@ def _make_rc_method(key: str, is_sync: bool):
                     fut = world.shared[key] = sched.ACTIVE.park_shared(("rc-shared", key, world.id))
                 await fut
             else:
+                # like a real evaluator that narrows the scope of its evaluation context while it works: the context object handed in
+                # belongs to THIS evaluation of THIS key
+                if context is not None:
+                    context.scope = f"$.condition[{key}]"
                 await sched.point(("rc", key, world.id))
+                if context is not None and context.scope != f"$.condition[{key}]":
+                    world.anomalies.append(f"the evaluation context of key {key} was changed to {context.scope!r} while the evaluator was suspended")
             seen = current_world()
             world.log.append(("rc", key, world.id, seen.id if seen else None))
             return REAL[world.rc[key]]
